@@ -248,7 +248,12 @@ oracle_proof!(c07_conversions, 16, conversions());
 /// group behind (observed through the hook) and agree on acceptance.
 fn timing_line() {
     use rosu_map::section::timing_points::{DifficultyPoint, EffectPoint, SamplePoint, TimingPoint};
-    stubs::seed_f64(b'b');
+    // beat length from the C12 alphabet: three copies of the velocity division at full width do
+    // not finish (DESIGN.md §3.4)
+    if let Some(b) = stubs::seed_f64(b'b') {
+        let idx: u8 = kani::any();
+        kani::assume(b.to_bits() == crate::c12::BEAT_LEN_ALPHABET[(idx % 18) as usize].to_bits());
+    }
     let line = tok_line("10,$b");
     let mut full = BeatmapState::create(14);
     let mut ho = <HitObjects as DecodeBeatmap>::State::create(14);
@@ -329,7 +334,7 @@ fn hit_object_line() {
     core::mem::forget((full, ho, ev));
 }
 
-// @verif property=C07 tier=quick timeout=1500 mem=24 bounds="timing line '10,$b' (beat length every f64 / error) through Beatmap / HitObjects / TimingPoints: equal acceptance and equal pending group; General ignores it"
+// @verif property=C07 tier=quick timeout=1500 mem=24 bounds="timing line '10,$b' (beat length from the 18-value alphabet / error) through Beatmap / HitObjects / TimingPoints: equal acceptance and equal pending group; General ignores it"
 oracle_proof!(c07_timing_line, 32, timing_line());
 // @verif property=C07 tier=quick timeout=1500 mem=24 bounds="circle line '$a,$b,$c,$d,2' through Beatmap / HitObjects: equal acceptance and equal stored object; Events ignores it"
 oracle_proof!(c07_hit_object_line, 32, hit_object_line());
